@@ -116,7 +116,8 @@ PROPS = {
     ),
     "C09": dict(
         gens=[tlc("c09", "quick"), tlc("c09full", "thorough"), rand("combined", 500, "quick"), rand("combined", 30000, "thorough")],
-        tv_props=["C09"],
+        tv_props=["C09", "DRIFT"],
+        mc=[dict(module="MC_CombineM.tla", cfg="MC_CombineM")],
         must_fire=["C09.compose_columns", "C09.compose_lines"],
         rule="SourceMapSource with an inner map: every (outer map, inner map) pair of the scope, original source given or "
              "taken from the outer sourcesContent, remove_original_source, both column settings; non-trivial = an outer "
